@@ -661,6 +661,7 @@ def run(chk, repo, tier):
     run_k10(chk, repo)
     run_k11(chk, repo)
     run_k12_k13(chk, repo)
+    run_k14(chk, repo)
 
 
 def _record_tests(fn):
@@ -903,3 +904,56 @@ def run_k12_k13(chk, repo):
                               line=c.lineno,
                               witness='kill a store between creating .datasets/.hash/<hash>/ and touching the entry inside it, '
                                       'then store another model that shares the dataset')
+
+
+def run_k14(chk, repo):
+    """K14: Context._store_model publishes a name in three steps (database transaction, store_key, store_annotation); the
+    reader must not present a name before the last step has happened. Structural clause: in Context._retrieve_me every
+    retrieve_* call (key, model entry, annotation) is exception-transparent - none sits in a try whose handler swallows the
+    lookup failure and substitutes a value - and all three pieces the writer publishes are read."""
+    K14 = chk.rule('K14', 'Context._retrieve_me: the lookups of key, model entry and annotation propagate their failure (a '
+                          'half-published name stays invisible)', floor=3)
+    m = repo.module('pharmpy.workflows.contexts.baseclass')
+    c = m.classes.get('Context')
+    f = c.methods.get('_retrieve_me') if c else None
+    w = c.methods.get('_store_model') if c else None
+    if f is None or w is None:
+        raise AnalysisError('K14: Context._retrieve_me / _store_model not found')
+    stored = {call_name(x).split('.')[-1][len('store_'):] for x in calls_in(w.node)
+              if (call_name(x) or '').split('.')[-1].startswith('store_')}
+    stored = {('model_entry' if s.startswith('model') else s) for s in stored}
+    parents = {}
+    for p in ast.walk(f.node):
+        for ch in ast.iter_child_nodes(p):
+            parents[ch] = p
+    SWALLOW = {'KeyError', 'LookupError', 'Exception', 'BaseException', 'FileNotFoundError', 'OSError'}
+    read = set()
+    for x in calls_in(f.node):
+        nm = (call_name(x) or '').split('.')[-1]
+        if not nm.startswith('retrieve_'):
+            continue
+        read.add(nm[len('retrieve_'):])
+        swallowed = None
+        n = x
+        while n in parents:
+            p = parents[n]
+            if isinstance(p, ast.Try) and any(n is s or any(n is d for d in ast.walk(s)) for s in p.body):
+                for h in p.handlers:
+                    caught = {e_.id for e_ in ast.walk(h.type) if isinstance(e_, ast.Name)} if h.type is not None else {'BaseException'}
+                    reraises = any(isinstance(r_, ast.Raise) for r_ in ast.walk(h))
+                    if caught & SWALLOW and not reraises:
+                        swallowed = h
+            n = p
+        ok = swallowed is None
+        chk.instance(K14, f'_retrieve_me: {unparse(x)[:50]} propagates its failure: {ok}')
+        if not ok:
+            chk.violation(K14, m.rel, f.qualname, f'{nm} under except {unparse(swallowed.type) if swallowed.type else ""}',
+                          f'a failing {nm} is replaced by a substitute value: a name whose store was interrupted before '
+                          f'{nm.replace("retrieve_", "store_")} is returned as if it were complete', line=x.lineno,
+                          witness='crash between store_key and the os.replace of the annotations file while storing a model '
+                                  'under a second name: retrieve_model_entry(second name) returns the first description')
+    missing = stored - read
+    if missing:
+        chk.violation(K14, m.rel, f.qualname, f'pieces not read: {sorted(missing)}',
+                      f'_store_model publishes {sorted(stored)} but _retrieve_me reads only {sorted(read)}',
+                      line=f.node.lineno, witness='a store interrupted before the unread piece is published is visible')
